@@ -608,6 +608,42 @@ def walk_futures(repo):
     return captures, steps, muts
 
 
+def arm64_registers(repo):
+    """REGISTERS and the alias arms of memoize_register of `impl CpuContext for md::CONTEXT_ARM64` (minidump/src/context.rs):
+    which STACK CFI register names a walker accepts and which of them are two names of one register"""
+    src = strip_comments(open(os.path.join(repo, "minidump/src/context.rs")).read())
+    m = re.search(r"impl\s+CpuContext\s+for\s+md::CONTEXT_ARM64\s*\{", src)
+    if not m:
+        die("impl CpuContext for md::CONTEXT_ARM64 not found in minidump/src/context.rs")
+    body = src[m.end() - 1:match_close(blank_strings(src), m.end() - 1) + 1]
+    r = re.search(r"const\s+REGISTERS\s*:\s*&'static\s*\[&'static\s+str\]\s*=\s*&\[([^\]]*)\]", body)
+    if not r:
+        die("CONTEXT_ARM64: const REGISTERS not found")
+    regs = re.findall(r'"([^"]+)"', r.group(1))
+    f = re.search(r"fn\s+memoize_register\s*\(\s*&self\s*,\s*reg\s*:\s*&str\s*\)\s*->\s*Option<&'static\s+str>\s*\{", body)
+    if not f:
+        die("CONTEXT_ARM64: fn memoize_register(&self, reg: &str) -> Option<&'static str> not found")
+    fb = norm(body[f.end() - 1:match_close(blank_strings(body), f.end() - 1) + 1])
+    mm = re.fullmatch(r'\{matchreg\{((?:"[^"]+"=>Some\("[^"]+"\),)*)_=>default_memoize_register\(Self::REGISTERS,reg\),?\}\}', fb)
+    if not mm:
+        die("CONTEXT_ARM64::memoize_register is not `match reg { \"a\" => Some(\"b\"), .., _ => default_memoize_register(Self::REGISTERS, reg) }`: " + fb[:200])
+    aliases = re.findall(r'"([^"]+)"=>Some\("([^"]+)"\)', mm.group(1))
+    d = re.search(r"fn\s+default_memoize_register\s*\([^)]*\)\s*->\s*Option<&'static\s+str>\s*\{", src)
+    if not d:
+        die("default_memoize_register not found")
+    db = norm(src[d.end() - 1:match_close(blank_strings(src), d.end() - 1) + 1])
+    if db != "{letidx=registers.iter().position(|val|*val==reg)?;Some(registers[idx])}":
+        die("default_memoize_register is not `let idx = registers.iter().position(|val| *val == reg)?; Some(registers[idx])`: " + db[:200])
+    usrc = strip_comments(open(os.path.join(repo, "minidump-unwind/src/arm64.rs")).read())
+    cs = re.search(r"const\s+CALLEE_SAVED_REGS\s*:\s*&\[&str\]\s*=\s*&\[([^\]]*)\]", usrc)
+    if not cs:
+        die("minidump-unwind/src/arm64.rs: const CALLEE_SAVED_REGS: &[&str] not found")
+    saved = re.findall(r'"([^"]+)"', cs.group(1))
+    if "CfiStackWalker::from_ctx_and_args(ctx,args,callee_forwarded_regs)" not in norm(usrc):
+        die("arm64.rs get_caller_by_cfi no longer builds its walker with CfiStackWalker::from_ctx_and_args(ctx, args, callee_forwarded_regs)")
+    return regs, aliases, saved
+
+
 def lsb_aliases(repo):
     path = os.path.join(repo, "minidump-processor/src/process_state.rs")
     src = strip_comments(open(path).read())
@@ -678,6 +714,7 @@ def main():
     if not conc:
         die("no future combinator found (the extraction is broken: into_process_state joins the per-thread walks)")
     arms = lsb_aliases(repo)
+    a64_regs, a64_aliases, a64_saved = arm64_registers(repo)
     o = ["(* GENERATED by translate/c13_sites.py from minidump-processor, minidump-unwind and breakpad-symbols sources — do not edit. *)",
          "From Coq Require Import List String ZArith.", "Import ListNotations.", "Open Scope string_scope.", "",
          "(* every iteration over a HashMap / HashSet in the non-test code: (file, enclosing fn, text without whitespace) *)",
@@ -709,6 +746,16 @@ def main():
     o.append("Definition lsb_aliases : list (list string * string) := [")
     o.append(";\n".join("  ([%s], %s)" % ("; ".join(coq_str(k) for k in ks), coq_str(fld)) for ks, fld in arms))
     o.append("].")
+    o.append("")
+    o.append("(* minidump/src/context.rs, impl CpuContext for md::CONTEXT_ARM64: REGISTERS and the alias arms of memoize_register *)")
+    o.append("Definition arm64_registers : list string := [%s]." % "; ".join(coq_str(r) for r in a64_regs))
+    o.append("Definition arm64_aliases : list (string * string) := [%s]." % "; ".join("(%s, %s)" % (coq_str(a), coq_str(b)) for a, b in a64_aliases))
+    zb0 = lambda t: "[%s]" % "; ".join("%d%%Z" % b for b in t.encode())
+    o.append("Definition arm64_register_bytes : list (list Z) := [%s]." % "; ".join(zb0(r) for r in a64_regs))
+    o.append("(* minidump-unwind/src/arm64.rs CALLEE_SAVED_REGS: what a CFI caller frame inherits from its callee before the rules run *)")
+    o.append("Definition arm64_callee_saved : list string := [%s]." % "; ".join(coq_str(r) for r in a64_saved))
+    o.append("Definition arm64_callee_saved_bytes : list (list Z) := [%s]." % "; ".join(zb0(r) for r in a64_saved))
+    o.append("Definition arm64_alias_bytes : list (list Z * list Z) := [%s]." % "; ".join("(%s, %s)" % (zb0(a), zb0(b)) for a, b in a64_aliases))
     o.append("")
     o.append("(* the same table as byte strings (what the extracted model runs on) *)")
     o.append("Definition lsb_alias_bytes : list (list (list Z) * list Z) := [")
